@@ -25,7 +25,7 @@ LEVEL_TEXT = ('Proved in Lean on the whole render function of the pipeline model
               'to the code in text mode by correspondence over an exhaustive alphabet enumeration plus part-list texts, and judged on the '
               'implementation by a constructive reference; the bytes clause of PageTextTemplateFile is judged on files in several encodings.')
 LEVEL_NOTE = ('D-20b (character entities inside a ${...} expression were decoded in text mode too) was repaired in /repo (fix: 8a4f2a3; TCfg.decodeInterp in the model: C20_render_text_expr_text needs no hypothesis about "&" any more). Trusted: Lean kernel; the pipeline model (validated by correspondence in text mode). Interpretation I-2: CR/CRLF are '
-              'normalised to LF in text mode too (documented for every non-XML content type). The D-20a defect (a text template '
+              'normalised to LF in text mode too (documented for every non-XML content type); a text that begins with "<?xml" is sniffed as text/xml and keeps them: with a carriage return it is outside the model and judged by the oracle only. The D-20a defect (a text template '
               'starting with "<" was parsed as markup) was repaired in /repo (fix: cf315bd).')
 RULE = ('(a) every string up to length 5 (quick: 4) over {<, >, &, $, {, }, a, ", newline, é, /, ?, ${x}}; (b) part-list texts: literal runs rich in markup / TAL-looking attributes / PIs / entities / $ runs '
         'and ${expr} parts with brace- and quote-rich expressions x bindings holding markup; (c) file templates in utf-8 with and '
@@ -36,7 +36,10 @@ ASSUMPTIONS = []
 ALPHA = ['<', '>', '&', '$', '{', '}', 'a', '"', '\n', 'é', '/', '?', 'X']      # X is replaced by ${x}
 LITS = ['<b>', '</b>', '<p tal:content="x">', '<?python y = 1 ?>', '<!-- c -->', '<![CDATA[', ']]>', '&amp;', '&lt;', '&', '<', '>', '$$', '$',
         'x $ y', '{', '}', '} {', 'é', '\n', ' \n  ', '<?xml version="1.0"?>', '<!DOCTYPE html>', "it's", '"q"', '$$$$', '<a href="${', '<br/>',
-        '<tal:block replace="x"/>', 'metal:use-macro="m"', '${', '$ {x}', 'i18n:translate=""', '</', '<!', '<?', '\n\n', '\n \n', '}\n', 'p { margin: 0 }\n', '\n\t\n']
+        '<tal:block replace="x"/>', 'metal:use-macro="m"', '${', '$ {x}', 'i18n:translate=""', '</', '<!', '<?', '\n\n', '\n \n', '}\n', 'p { margin: 0 }\n', '\n\t\n',
+        # CR / CRLF are line ends (normalised to LF, interpretation I-2); form feed, the information separators, NEL and the Unicode
+        # line / paragraph separators are ordinary characters of a text - with and without a carriage return elsewhere in the source
+        '\r\n', 'a\r\nb', '\r', '\x0c', 'page 1\x0cpage 2', '\x0b', '\x1c', '\x1d\x1e', '\x85', '\u2028', 'a\u2029b', '\x0c\r\n', 'z\x85']
 EXPRS = [("x", '<V&>'), ("y", 'Zoë'), ("'}'", '}'), ("{'a': 1}['a']", '1'), ("'<' + y + '>'", '<Zoë>'), ("len({1, 2})", '2'), ("f'{y}!'", 'Zoë!'),
          ("n", '7'), ("1 < 2", 'True'), ("'$$'", '$$'), ("'{0}'.format(y)", 'Zoë'), ("'\"'", '"'), ('"\'"', "'"),
          ("str({'k': '}'}['k'])", '}'), ("none", ''), ("max(1,\n\n 2)", '2'), ("'a' +\n \n 'b'", 'ab'), ("(y\n\n)", 'Zoë'), ("[n,\n\t\n n][0]", '7'), ("'<b>'", '<b>'), ("x | y", '<V&>'), ("nope | y", 'Zoë'), ("structure: x", '<V&>'),
@@ -95,7 +98,11 @@ def partcase(rng):
     if '${' in ''.join((v if k == 'lit' else '\0') for k, v in parts):
         return None
     nt = any(ch in text for ch in '<&') and '$' in text
-    return {'src': text, 'vars': VARS, 'objs': [], 'cfg': {'text_mode': True}}, exp.replace('\r\n', '\n'), nt
+    # a text that begins with an XML declaration keeps its line ends (it is sniffed as text/xml); every other one has CR / CRLF
+    # normalised to LF (interpretation I-2)
+    if not text.startswith('<?xml'):
+        exp = exp.replace('\r\n', '\n').replace('\r', '\n')
+    return {'src': text, 'vars': VARS, 'objs': [], 'cfg': {'text_mode': True}}, exp, nt
 
 
 def enum_cases(n):
@@ -128,6 +135,9 @@ def correspondence(ctx):
     for _ in range(ctx.budget(600, 10000)):
         s = ''.join(ctx.rng.choice(LITS + ['${x}', '${y}', '${', '}', '$']) for _ in range(ctx.rng.randint(1, 6)))
         cases.append({'src': s, 'vars': VARS, 'objs': [], 'cfg': {'text_mode': True}})
+    # outside the model: a text template that begins with '<?xml' and holds a carriage return (the code keeps its line ends, the
+    # model of text mode always normalises) - judged by the oracle only
+    cases = [c for c in cases if not (c['src'].startswith('<?xml') and '\r' in c['src'])]
     pipeline.run_cases(ctx, cases, what='text mode')
 
 
